@@ -109,7 +109,7 @@ def judge_projects(all_runs):
         n, b = rel.judge("SameBagAndExit", EXCLUDE, observations["bag"])
         npairs += n
         bad += b
-    tres = runtrace.validate(tr_runs, keep_dir=os.path.join(vlib.VERIF, "out", "replays", PID))
+    tres = runtrace.validate(tr_runs, keep_dir=os.path.join(vlib.OUT, "replays", PID))
     return npairs, bad, tres
 
 
